@@ -161,15 +161,18 @@ func (c *Ctx) replayLexFile(path, family string) (n, nontrivial int64) {
 }
 
 // single code points: classification by the Unicode tables (they are the definition of "letter" and "mark"),
-// expected result = the specification's result for a one-character text of that class.
-func (c *Ctx) lexAllCodePoints() int64 {
+// expected result = the specification's result for a one-character text of that class.  With a prefix ("7": inside a
+// numeral, "k": inside a name) the same sweep decides for every code point whether it continues the token before it.
+func (c *Ctx) lexAllCodePoints() int64 { return c.lexAllCodePointsAfter("") }
+
+func (c *Ctx) lexAllCodePointsAfter(prefix string) int64 {
 	cases := make(chan *Case, 1024)
 	go func() {
 		for cp := 0; cp <= 0x10FFFF; cp++ {
 			if cp >= 0xD800 && cp <= 0xDFFF {
 				continue
 			}
-			cases <- &Case{ID: cp, Mode: "lex", Src: string(rune(cp))}
+			cases <- &Case{ID: cp, Mode: "lex", Src: prefix + string(rune(cp))}
 		}
 		close(cases)
 	}()
@@ -181,40 +184,67 @@ func (c *Ctx) lexAllCodePoints() int64 {
 		n++
 		cp := cs.ID
 		rec := &LexRec{Text: []int{cp}}
+		at := 1 // position of the swept character
+		if prefix != "" {
+			rec.Text = []int{int(prefix[0]), cp}
+			at = 2
+		}
 		eofLine := 1
 		r0 := rune(cp)
-		switch {
-		case ops[cp] != "":
-			rec.Toks = append(rec.Toks, LexTok{Ty: ops[cp], A: 1, B: 1, Ln: 1})
-		case cp == '\n':
-			eofLine = 2
-		case cp == ' ' || cp == '\t' || cp == '\r':
-		case cp == '"':
-			rec.Diags = []int{1}
-		case (cp >= '0' && cp <= '9') || (cp >= 0x09E6 && cp <= 0x09EF):
-			d := cp - '0'
+		isDigit := (cp >= '0' && cp <= '9') || (cp >= 0x09E6 && cp <= 0x09EF)
+		isAlpha := unicode.IsLetter(r0) || unicode.IsMark(r0) || cp == '_'
+		digitOf := func(cp int) int {
 			if cp >= 0x09E6 {
-				d = cp - 0x09E6
+				return cp - 0x09E6
 			}
-			t := LexTok{Ty: "NUMBER", A: 1, B: 1, Ln: 1}
+			return cp - '0'
+		}
+		num := func(v float64, a, b int) LexTok {
+			t := LexTok{Ty: "NUMBER", A: a, B: b, Ln: 1}
 			t.Lit.K = "num"
-			t.Lit.Bits = bitsOf(float64(d))
-			rec.Toks = append(rec.Toks, t)
-		case unicode.IsLetter(r0) || unicode.IsMark(r0) || cp == '_':
+			t.Lit.Bits = bitsOf(v)
+			return t
+		}
+		joined := false
+		switch {
+		case prefix == "7" && isDigit:
+			rec.Toks = append(rec.Toks, num(float64(70+digitOf(cp)), 1, 2))
+			joined = true
+		case prefix == "7":
+			rec.Toks = append(rec.Toks, num(7, 1, 1))
+		case prefix == "k" && (isDigit || isAlpha):
+			rec.Toks = append(rec.Toks, LexTok{Ty: "IDENTIFIER", A: 1, B: 2, Ln: 1})
+			joined = true
+		case prefix == "k":
 			rec.Toks = append(rec.Toks, LexTok{Ty: "IDENTIFIER", A: 1, B: 1, Ln: 1})
-		default:
-			rec.Diags = []int{1}
+		}
+		if !joined {
+			switch {
+			case ops[cp] != "":
+				rec.Toks = append(rec.Toks, LexTok{Ty: ops[cp], A: at, B: at, Ln: 1})
+			case cp == '\n':
+				eofLine = 2
+			case cp == ' ' || cp == '\t' || cp == '\r':
+			case cp == '"':
+				rec.Diags = []int{1}
+			case isDigit:
+				rec.Toks = append(rec.Toks, num(float64(digitOf(cp)), at, at))
+			case isAlpha:
+				rec.Toks = append(rec.Toks, LexTok{Ty: "IDENTIFIER", A: at, B: at, Ln: 1})
+			default:
+				rec.Diags = []int{1}
+			}
 		}
 		for i := range rec.Toks {
 			if rec.Toks[i].Lit.K == "" {
 				rec.Toks[i].Lit.K = "none"
 			}
 		}
-		e := LexTok{Ty: "EOF", A: 2, B: 1, Ln: eofLine}
+		e := LexTok{Ty: "EOF", A: at + 1, B: at, Ln: eofLine}
 		e.Lit.K = "none"
 		rec.Toks = append(rec.Toks, e)
 		if what, detail := compareLex(rec, r); what != "" {
-			c.violation(c.Prop+"|codepoint|"+what, fmt.Sprintf("U+%04X", cp),
+			c.violation(c.Prop+"|codepoint"+prefix+"|"+what, fmt.Sprintf("%sU+%04X", prefix, cp),
 				map[string]interface{}{"mode": "lex", "text": rec.Text, "src": cs.Src, "expected": rec, "observed": r, "detail": detail})
 		}
 	})
@@ -246,7 +276,7 @@ func checkC09(c *Ctx) {
 	if sres.Err == "" {
 		sn, snt = c.replayLexFile(simOut, "random-long")
 	}
-	cpn := c.lexAllCodePoints()
+	cpn := c.lexAllCodePoints() + c.lexAllCodePointsAfter("k")
 	c.cov("traces_validated_against_impl", n+sn+cpn)
 	c.cov("evaluations", n+sn+cpn)
 	c.cov("distinct_nontrivial", nt+snt)
@@ -322,12 +352,12 @@ func checkC10(c *Ctx) {
 		n2 := c.replayLiteralPrints(out)
 		c.addInt("evaluations", n2)
 	}
-	cp := c.translitAllCodePoints()
+	cp := c.translitAllCodePoints() + c.lexAllCodePointsAfter("7")
 	c.addInt("traces_validated_against_impl", n+cp)
 	c.addInt("evaluations", n+cp)
 	c.cov("distinct_nontrivial", nt)
 	c.cov("exhaustive", true)
-	c.cov("rule", "every string of <= MaxLen characters over the 20 digits of both scripts and the point (exhaustive), NRandom seeded random literals of up to 400+400 digits in random script mixtures, NRandom exact halfway cases between adjacent doubles (one unit below / exactly / above) and the special thresholds (largest double, overflow, smallest subnormal, smallest normal, 2^53); every code point through the transliteration helper; expected value = BigDecimal correct rounding in the Host override; non-trivial = at least one NUMBER token or a diagnostic")
+	c.cov("rule", "every string of <= MaxLen characters over the 20 digits of both scripts and the point (exhaustive), NRandom seeded random literals of up to 400+400 digits in random script mixtures, NRandom exact halfway cases between adjacent doubles (one unit below / exactly / above) and the special thresholds (largest double, overflow, smallest subnormal, smallest normal, 2^53); every code point through the transliteration helper and, written directly after a digit, through the scanner (does it continue the numeral?); expected value = BigDecimal correct rounding in the Host override; non-trivial = at least one NUMBER token or a diagnostic")
 	c.Ev.Assumptions = []string{"JVM BigDecimal.doubleValue is correctly rounded (independent of Go's strconv)", "TLC and the Host override are correct"}
 }
 
